@@ -26,12 +26,12 @@ COMPONENTS = {
 
 MIX = {
     #            write  del  copy  read  chain  bad  value  reattach  validate  deep
-    'c09': dict(write=50, dele=18, copy=8, read=4, chain=8, bad=4, value=6, reattach=0, validate=0, deep=12),
-    'c10': dict(write=30, dele=14, copy=5, read=10, chain=8, bad=18, value=6, reattach=8, validate=1, deep=10),
-    'c11': dict(write=14, dele=6, copy=2, read=40, chain=26, bad=4, value=3, reattach=0, validate=5, deep=20),
-    'c12': dict(write=30, dele=8, copy=3, read=2, chain=4, bad=42, value=8, reattach=3, validate=0, deep=8),
-    'c05': dict(write=50, dele=10, copy=5, read=2, chain=8, bad=10, value=8, reattach=0, validate=0, deep=12),
-    'c04': dict(write=35, dele=10, copy=2, read=2, chain=4, bad=4, value=5, reattach=0, validate=38, deep=8),
+    'c09': dict(write=50, dele=18, copy=8, read=4, chain=8, bad=4, value=6, reattach=0, validate=0, attach=5, deep=12),
+    'c10': dict(write=30, dele=14, copy=5, read=10, chain=8, bad=18, value=6, reattach=8, validate=1, attach=16, deep=10),
+    'c11': dict(write=14, dele=6, copy=2, read=40, chain=26, bad=4, value=3, reattach=0, validate=5, attach=4, deep=20),
+    'c12': dict(write=30, dele=8, copy=3, read=2, chain=4, bad=42, value=8, reattach=3, validate=0, attach=12, deep=8),
+    'c05': dict(write=50, dele=10, copy=5, read=2, chain=8, bad=10, value=8, reattach=0, validate=0, attach=14, deep=12),
+    'c04': dict(write=35, dele=10, copy=2, read=2, chain=4, bad=4, value=5, reattach=0, validate=38, attach=4, deep=8),
 }
 
 SEG_POOL = ['PID', 'PV1', 'NK1', 'OBX', 'EVN', 'MSA', 'ORC', 'OBR', 'AL1', 'DG1', 'IN1', 'NTE', 'PD1', 'QRD', 'ERR']
@@ -510,6 +510,100 @@ class Gen:
     def _chain_field(self, path, seg_name, node):
         idx, fref, reps = self.pick_field(seg_name, node, 0.3)
         return {'k': 'set', 'p': path, 'c': ['fld', idx, 0, self.sp()], 'v': {'text': self.field_value(fref)}, 'via': 'attr'}
+
+    def op_attach(self, world):
+        """the other ways an element gets (or loses) a parent: constructor parent=, child.parent = p,
+        child.parent = None, assigning an element that is attached elsewhere, assigning a base datatype
+        object, and writing through a handle obtained earlier (possibly stale by now)"""
+        rng = self.rng
+        targets = self.seg_targets(world)
+        if not targets:
+            return None
+        path, seg_name, node = rng.choice(targets)
+        idx, fref, reps = self.pick_field(seg_name, node, 0.6)
+        card = HN.field_card(self.version, seg_name, idx)
+        step = ['fld', idx, 0, 0]
+        fname = '%s_%d' % (seg_name, idx)
+        other_level = 2 if self.level == 1 else 1
+        kind = rng.choice(['parent_kw', 'parent_kw', 'parent_attr', 'parent_attr', 'detach', 'elem', 'elem', 'bdt', 'bdt',
+                           'hold', 'hold'])
+        if self.mixname == 'c09':      # C09 speaks of assignments, additions, deletions and copies only
+            kind = rng.choice(['bdt', 'bdt', 'parent_attr'])
+        strict_full = self.strict and card[1] != -1 and reps >= card[1]
+        if kind in ('parent_kw', 'parent_attr'):
+            op = {'k': 'add', 'p': path, 'c': step, 'via': kind}
+            if kind == 'parent_attr':
+                op['text'] = self.field_value(fref, self.inv(), corpus._ec(0))
+            r = rng.random()
+            if r < 0.25:
+                # a TOLERANT child for every twin / the other level for a single element: STRICT must refuse
+                op['level'] = 2 if self.twin else other_level
+                op['bad'] = 'level_mismatch'
+            elif r < 0.40 and fref is not None:
+                op['datatype'] = rng.choice([d for d in ('HD', 'CX', 'ST', 'NM', 'CE', 'XPN') if d != fref[2]])
+                op['bad'] = 'datatype_override'
+            elif strict_full:
+                op['bad'] = 'cardinality'
+            elif self.mixname == 'c09' and self.strict:
+                return None
+            return op
+        if kind == 'detach':
+            if node is None or not node.kids or node.key == 'MSH':
+                return None
+            child = rng.choice(node.kids)
+            rep_i = [id(k) for k in node.reps('fld', child.key)].index(id(child))
+            return {'k': 'detach', 'p': path + [['fld', child.key, rep_i, 0]]}
+        if kind == 'elem':
+            if node is None or len(node.kids) < 1:
+                return None
+            src = rng.choice(node.kids)
+            src_i = [id(k) for k in node.reps('fld', src.key)].index(id(src))
+            reps_same = node.reps('fld', src.key)
+            if len(reps_same) > 1 and rng.random() < 0.7:
+                dst_i = rng.choice([i for i in range(len(reps_same)) if i != src_i])
+                return {'k': 'set', 'p': path, 'c': ['fld', src.key, dst_i, 0], 'via': 'item', 'bad': 'elem_assign',
+                        'v': {'elem': [0, path + [['fld', src.key, src_i, 0]]]}}
+            ri, mk = self.ensure_side(world, 'seg', seg_name)
+            if mk is not None:
+                return mk
+            s0 = [s for s in world.suts if s.alive][0]
+            side = s0.models[ri]
+            if side is None or not side.kids:
+                return None
+            sk = rng.choice(side.kids)
+            sk_i = [id(k) for k in side.reps('fld', sk.key)].index(id(sk))
+            return {'k': 'set', 'p': path, 'c': ['fld', sk.key, 0, 0], 'via': 'attr', 'bad': 'elem_assign',
+                    'v': {'elem': [ri, [['fld', sk.key, sk_i, 0]]]}}
+        if kind == 'bdt':
+            fl = [(i, c) for i, c in _usable_fields(self.version, seg_name) if T.is_base(self.version, c[1][2])]
+            if not fl:
+                return None
+            ex = {f.key for f in node.kids} if node is not None else set()
+            cand = [x for x in fl if x[0] in ex]
+            i, c = rng.choice(cand) if cand and rng.random() < 0.7 else rng.choice(fl)
+            dt = c[1][2]
+            v, ok = gen.leaf(dt, self.tok, rng, self.inv())
+            return {'k': 'set', 'p': path, 'c': ['fld', i, 0, self.sp()], 'via': 'attr', 'v': {'bdt': [dt, v]}}
+        # hold: keep a handle obtained by traversal, write through it later (maybe after the same child was added)
+        comps = _usable_comps(self.version, fref) if fref is not None else []
+        hpath = path + [['fld', idx, 0, 0]]
+        if comps:
+            cidx, ce = rng.choice(comps)
+            hpath = hpath + [['cmp', cidx, 0, 0]]
+            text = gen.component_text(rng, self.version, ce[1], self.ec, self.tok, 0.4, self.inv())
+        elif fref is not None and T.is_base(self.version, fref[2]):
+            hpath = hpath + [['cmp', 1, 0, 0]]
+            text, ok = gen.leaf(fref[2], self.tok, rng, self.inv())
+        else:
+            text = self.field_value(fref)
+        reg = rng.randrange(100)
+        follow = []
+        if rng.random() < 0.6:
+            follow.append({'k': 'add', 'p': path, 'c': step, 'via': 'factory'})
+            follow.append({'k': 'value', 'p': path + [['fld', idx, reps, 0]], 'text': self.field_value(fref), 'after_add': True})
+        follow.append({'k': 'held_value', 'reg': reg, 'text': text, 'bad': 'stale_handle'})
+        self.pending.extend(follow)
+        return {'k': 'hold', 'p': hpath, 'reg': reg}
 
     def op_reattach(self, world):
         rng = self.rng
